@@ -6,12 +6,6 @@ import GherkinVerif.Lemmas.Replace
 import GherkinVerif.Spec.Compile
 namespace GV
 
-/-- `p` occurs in `t` at offset `k` -/
-def OccursAt (p t : Str) (k : Nat) : Prop := startsWith p (t.drop k) = true ∧ k + p.length ≤ t.length
-
-/-- the placeholder for header `h` -/
-def placeholder (h : Str) : Str := [60] ++ h ++ [62]
-
 /-- Text with no occurrence of the pattern is left unchanged. -/
 theorem C09_no_occurrence (p v t : Str) (h : ∀ k, ¬ OccursAt p t k) : replaceAll p v t = t :=
   Lemmas.replaceAll_no_occurrence p v t h
